@@ -4,6 +4,7 @@ import (
 	"fmt"
 	"go/token"
 	"go/types"
+	"sort"
 
 	"golang.org/x/tools/go/ssa"
 
@@ -152,35 +153,7 @@ func runC12(c *Ctx) {
 		c.verdict(okQ && len(sends) == 1, c.nm(q)+" | batch handed to the dispatcher or answered with the shutdown error", c.P.Pos(q.Pos()), "select{newBatches<-b | <-quit: errChan<-ErrWorkManagerShuttingDown}", "Query no longer guarantees an answer when the dispatcher is gone")
 	})
 
-	c.rule("C12.V1", "handing a batch to the dispatcher is a rendezvous: every channel stored into peerWorkManager.newBatches is made without capacity, so a send that succeeds in Query means the dispatcher has registered the batch (and owes it a verdict, C12.X1); a batch parked in a buffer when the dispatcher exits would never get one", func() {
-		nb := c.field("query", "peerWorkManager", "newBatches")
-		n := 0
-		okv := true
-		var sites []string
-		for _, fn := range c.P.Funcs {
-			ir.Instrs(fn, func(in ssa.Instruction) {
-				st, ok := in.(*ssa.Store)
-				if !ok {
-					return
-				}
-				fa, ok := st.Addr.(*ssa.FieldAddr)
-				if !ok || ir.FieldOfAddr(fa) != nb {
-					return
-				}
-				n++
-				sites = append(sites, c.at(in))
-				mk, isMk := ir.Strip(st.Val).(*ssa.MakeChan)
-				if !isMk {
-					okv = false
-					return
-				}
-				if k, isC := ir.ConstInt(mk.Size); !isC || k != 0 {
-					okv = false
-				}
-			})
-		}
-		c.verdict(okv && n >= 1, "query.peerWorkManager.newBatches | made without capacity", "", fmt.Sprintf("%d allocation(s), all unbuffered", n), "peerWorkManager.newBatches is (or may be) a buffered channel: Query's send succeeds while the batch is still in the buffer; when the dispatcher exits, its shutdown sweep only answers registered batches and the buffered ones never get a verdict", sites...)
-	})
+	c.rule("C12.V1", batchRendezvousDoc, func() { c.batchRendezvous() })
 
 	c.rule("C12.G1", "success only if every request was answered: the nil verdict is sent only when batch.rem == 0, and rem is decremented only for a result without error", func() {
 		fn := c.fn(fnDispatch)
@@ -263,41 +236,77 @@ func runC12(c *Ctx) {
 		c.mustFollowIter(fn, "job pushed back", starts, mapUpdate(isQueries), "currentQueries[job.index] = batchNum", nil, 1)
 	})
 
-	c.rule("C12.O3", "every available peer gets a worker: in workDispatcher, from the receive of a newly connected peer every path through the iteration registers a worker for it in the workers table and starts its Run goroutine (a connected peer that is dropped here can never be handed the re-issued requests)", func() {
-		fn := c.fn(fnDispatch)
-		var peerT types.Type
-		if n := c.P.Named("query", "Peer"); n != nil {
-			peerT = n
+	c.rule("C12.V2", "a job's verdict is its own: the error worker.Run reports with a job (jobResult.err) is decided in the iteration that ran that job; no value reaches it from an earlier iteration of the job loop (an error left over from a timed-out or cancelled job would fail every later job the peer answered, and with it batches that were fully answered)", func() {
+		fn := c.fn(fnWRun)
+		errF := c.field("query", "jobResult", "err")
+		var stores []ssa.Instruction
+		for _, in := range find(fn, storeToField(errF)) {
+			stores = append(stores, in)
 		}
-		starts := c.selectArms(fn, func(sel *ssa.Select, st *ssa.SelectState) bool {
-			if st.Dir != types.RecvOnly {
-				return false
-			}
-			ch, ok := st.Chan.Type().Underlying().(*types.Chan)
-			return ok && peerT != nil && types.Identical(ch.Elem(), peerT)
-		}, "peer connected")
-		aw := c.P.Named("query", "activeWorker")
-		reg := mapUpdate(func(m ssa.Value) bool {
-			mt, ok := m.Type().Underlying().(*types.Map)
-			return ok && aw != nil && elemIs(mt.Elem(), aw)
-		})
-		c.mustFollowIter(fn, "peer connected", starts, reg, "workers[peer.Addr()] = &activeWorker{..}", nil, 1)
-		c.graph()
-		run := c.method("query", "Worker", "Run")
-		goRun := func(in ssa.Instruction) bool {
-			g, ok := in.(*ssa.Go)
-			if !ok {
-				return false
-			}
-			for _, t := range c.valueFuncs(g.Call.Value, 0) {
-				if len(find(t, callTo(run))) > 0 {
-					return true
+		construct := c.nm(fn) + " | jobResult.err is not carried over from an earlier job"
+		if len(stores) == 0 {
+			c.fail(construct, c.P.Pos(fn.Pos()), "no jobResult with an err field is built in worker.Run")
+			return
+		}
+		var bad []string
+		for _, st := range stores {
+			// outermost loop around the report
+			var outer *ssa.BasicBlock
+			for _, b := range fn.Blocks {
+				if len(ir.BackEdgesTo(b)) > 0 && ir.LoopBlocks(b)[st.Block()] {
+					if outer == nil || len(ir.LoopBlocks(b)) > len(ir.LoopBlocks(outer)) {
+						outer = b
+					}
 				}
 			}
-			return false
+			if outer == nil {
+				continue
+			}
+			seen := map[ssa.Value]bool{}
+			var walk func(v ssa.Value, d int)
+			walk = func(v ssa.Value, d int) {
+				if v == nil || seen[v] || d > 12 {
+					return
+				}
+				seen[v] = true
+				switch x := v.(type) {
+				case *ssa.Phi:
+					if x.Block() == outer {
+						bad = append(bad, "the error reported at "+c.at(st)+" can be a value carried around the job loop (merge at the loop head, "+c.at(x)+")")
+						return
+					}
+					for _, e := range x.Edges {
+						walk(e, d+1)
+					}
+				case *ssa.UnOp:
+					if al, ok := x.X.(*ssa.Alloc); ok && x.Op == token.MUL {
+						// a variable cell: declared outside the loop and not reset in it?
+						if !ir.LoopBlocks(outer)[al.Block()] {
+							reset := false
+							for _, s2 := range ir.StoresTo(al) {
+								if ir.LoopBlocks(outer)[s2.Block()] && ir.IsNil(s2.Val) && s2.Block().Dominates(st.Block()) {
+									reset = true
+								}
+							}
+							if !reset {
+								bad = append(bad, "the error reported at "+c.at(st)+" is read from a variable declared outside the job loop and not reset in it ("+c.at(al)+")")
+							}
+						}
+					}
+				case *ssa.ChangeInterface:
+					walk(x.X, d+1)
+				case *ssa.MakeInterface:
+					walk(x.X, d+1)
+				}
+			}
+			walk(st.(*ssa.Store).Val, 0)
 		}
-		c.mustFollowIter(fn, "peer connected", starts, goRun, "go r.Run(w.jobResults, w.quit)", nil, 1)
+		sort.Strings(bad)
+		bad = uniq(bad)
+		c.verdict(len(bad) == 0, construct, c.P.Pos(fn.Pos()), "every value that can reach jobResult.err is produced in the current iteration", join(bad), c.ats(stores)...)
 	})
+
+	c.rule("C12.O3", workerPerPeerDoc, func() { c.workerPerPeer() })
 
 	c.rule("C12.O4", "a job is never handed to a dead worker: the dispatcher's blocking hand-over (the select that sends on worker.NewJob()) also waits on that worker's exit signal (activeWorker.onExit), and on that arm forgets the worker and moves on; a peer that disconnected between jobs would otherwise block the dispatcher, and every batch with it, until shutdown", func() {
 		fn := c.fn(fnDispatch)
@@ -484,4 +493,76 @@ func runC12(c *Ctx) {
 		}
 		c.verdict(len(bad) == 0, construct, c.P.Pos(fn.Pos()), "without the Finished edge every error value reaching the result is non-nil", join(bad))
 	})
+}
+
+const workerPerPeerDoc = "every available peer gets a worker: in workDispatcher, from the receive of a newly connected peer every path through the iteration registers a worker for it in the workers table and starts its Run goroutine (a connected peer that is dropped here can never be handed the re-issued requests)"
+
+// workerPerPeer: see workerPerPeerDoc.
+func (c *Ctx) workerPerPeer() {
+		fn := c.fn(fnDispatch)
+		var peerT types.Type
+		if n := c.P.Named("query", "Peer"); n != nil {
+			peerT = n
+		}
+		starts := c.selectArms(fn, func(sel *ssa.Select, st *ssa.SelectState) bool {
+			if st.Dir != types.RecvOnly {
+				return false
+			}
+			ch, ok := st.Chan.Type().Underlying().(*types.Chan)
+			return ok && peerT != nil && types.Identical(ch.Elem(), peerT)
+		}, "peer connected")
+		aw := c.P.Named("query", "activeWorker")
+		reg := mapUpdate(func(m ssa.Value) bool {
+			mt, ok := m.Type().Underlying().(*types.Map)
+			return ok && aw != nil && elemIs(mt.Elem(), aw)
+		})
+		c.mustFollowIter(fn, "peer connected", starts, reg, "workers[peer.Addr()] = &activeWorker{..}", nil, 1)
+		c.graph()
+		run := c.method("query", "Worker", "Run")
+		goRun := func(in ssa.Instruction) bool {
+			g, ok := in.(*ssa.Go)
+			if !ok {
+				return false
+			}
+			for _, t := range c.valueFuncs(g.Call.Value, 0) {
+				if len(find(t, callTo(run))) > 0 {
+					return true
+				}
+			}
+			return false
+		}
+		c.mustFollowIter(fn, "peer connected", starts, goRun, "go r.Run(w.jobResults, w.quit)", nil, 1)
+}
+
+const batchRendezvousDoc = "handing a batch to the dispatcher is a rendezvous: every channel stored into peerWorkManager.newBatches is made without capacity, so a send that succeeds in Query means the dispatcher has registered the batch (and owes it a verdict, C12.X1); a batch parked in a buffer when the dispatcher exits would never get one"
+
+// batchRendezvous: see batchRendezvousDoc.
+func (c *Ctx) batchRendezvous() {
+		nb := c.field("query", "peerWorkManager", "newBatches")
+		n := 0
+		okv := true
+		var sites []string
+		for _, fn := range c.P.Funcs {
+			ir.Instrs(fn, func(in ssa.Instruction) {
+				st, ok := in.(*ssa.Store)
+				if !ok {
+					return
+				}
+				fa, ok := st.Addr.(*ssa.FieldAddr)
+				if !ok || ir.FieldOfAddr(fa) != nb {
+					return
+				}
+				n++
+				sites = append(sites, c.at(in))
+				mk, isMk := ir.Strip(st.Val).(*ssa.MakeChan)
+				if !isMk {
+					okv = false
+					return
+				}
+				if k, isC := ir.ConstInt(mk.Size); !isC || k != 0 {
+					okv = false
+				}
+			})
+		}
+		c.verdict(okv && n >= 1, "query.peerWorkManager.newBatches | made without capacity", "", fmt.Sprintf("%d allocation(s), all unbuffered", n), "peerWorkManager.newBatches is (or may be) a buffered channel: Query's send succeeds while the batch is still in the buffer; when the dispatcher exits, its shutdown sweep only answers registered batches and the buffered ones never get a verdict", sites...)
 }
